@@ -5,6 +5,18 @@ HERE = os.path.dirname(os.path.abspath(__file__))
 ROOT = os.path.dirname(HERE)
 
 CHECKS = {
+    "C05": dict(
+        text="Lean theorems: the model of every UnitValue / UnitArray operator method (forward and reflected, _neg/_inv, **, "
+             "comparisons, Python's dispatch) is a homomorphism onto exact arithmetic on SI values and dimension vectors for all "
+             "expression trees, all valid unit systems and all integer dimension vectors; dimensionally meaningless operations are "
+             "errors (the SI value of scalar ** is a hypothesis of the tree theorem, its dimension rule is proved); operator "
+             "wiring regenerated from units.py. Tie: translator group UnitsOps + correspondence on random "
+             "expression trees and an exhaustive operator x pairing table + per-node SI oracle on the real code.",
+        note="Lean kernel + {propext, Classical.choice, Quot.sound}; translator; correspondence harness; float rounding within "
+             "1e-9 of the magnitude of the added terms (checked on every case, not proved); real power of a positive number is a "
+             "parameter with a stated contract.",
+        technique="Lean 4 proof (structural induction over expression trees) + differential correspondence",
+        design="§6 C05"),
     "C06": dict(
         text="Lean theorems: generated unit tables (regenerated from units.py on every run) have their SI meaning "
              "(whole-table kernel evaluation); conversion factor = ratio of SI values; identity, composition, inverse, "
